@@ -14,6 +14,8 @@ import (
 
 	corev1 "k8s.io/api/core/v1"
 	metav1 "k8s.io/apimachinery/pkg/apis/meta/v1"
+	corelisters "k8s.io/client-go/listers/core/v1"
+	"k8s.io/client-go/tools/cache"
 	"sigs.k8s.io/yaml"
 
 	"verif/harness/internal/vh"
@@ -172,34 +174,46 @@ func argKey(k int64) string {
 
 func permille(p int64) float64 { return float64(p) / 1000 }
 
-// the FIRST entry of a key wins (the model's lookup)
-func argMap(a []argT) map[string]interface{} {
+// the FIRST entry of a key wins (the model's lookup).  variant 0 inserts the
+// keys back to front, variant 1 front to back: two insertion orders of the same map.
+func argMap(a []argT, variant int) map[string]interface{} {
 	if len(a) == 0 {
 		return nil
 	}
 	m := map[string]interface{}{}
-	for i := len(a) - 1; i >= 0; i-- {
-		if a[i].k == 1 || a[i].k == 2 {
-			m[argKey(a[i].k)] = permille(a[i].v)
+	put := func(x argT) {
+		if x.k == 1 || x.k == 2 {
+			m[argKey(x.k)] = permille(x.v)
 		} else {
-			m[argKey(a[i].k)] = int(a[i].v)
+			m[argKey(x.k)] = int(x.v)
+		}
+	}
+	if variant == 0 {
+		for i := len(a) - 1; i >= 0; i-- {
+			put(a[i])
+		}
+	} else {
+		for _, x := range a {
+			if _, dup := m[argKey(x.k)]; !dup {
+				put(x)
+			}
 		}
 	}
 	return m
 }
 
-func buildYAML(in *input) []byte {
+func buildYAML(in *input, variant int) []byte {
 	cfg := sharding.ShardingConfig{}
 	for _, s := range in.specs {
 		spec := sharding.SchedulerConfigSpec{
 			Name: schedName(s.name), Type: "volcano",
-			Arguments:         argMap(s.args),
+			Arguments:         argMap(s.args, variant),
 			CPUUtilizationMin: permille(s.cpumin), CPUUtilizationMax: permille(s.cpumax),
 			PreferWarmupNodes: s.prefer, MinNodes: int(s.minn), MaxNodes: int(s.maxn),
 		}
 		for _, p := range s.pols {
 			spec.Policies = append(spec.Policies, sharding.PolicySpec{
-				Name: policyName(p.name), Weight: int(p.weight), Arguments: argMap(p.args)})
+				Name: policyName(p.name), Weight: int(p.weight), Arguments: argMap(p.args, variant)})
 		}
 		cfg.SchedulerConfigs = append(cfg.SchedulerConfigs, spec)
 	}
@@ -224,15 +238,25 @@ func (p *stubProvider) GetAllNodeMetrics() map[string]*sharding.NodeMetrics {
 }
 func (p *stubProvider) UpdateNodeMetrics(n string, m *sharding.NodeMetrics) { p.m[n] = m }
 
-func buildProvider(in *input) *stubProvider {
+func buildProvider(in *input, variant int) *stubProvider {
 	p := &stubProvider{m: map[string]*sharding.NodeMetrics{}}
-	for i := len(in.metrics) - 1; i >= 0; i-- {
-		m := in.metrics[i]
+	put := func(m metricT) {
 		if !m.present {
 			p.m[nodeName(m.name)] = nil
-			continue
+			return
 		}
 		p.m[nodeName(m.name)] = &sharding.NodeMetrics{NodeName: nodeName(m.name), CPUUtilization: permille(m.util)}
+	}
+	if variant == 0 {
+		for i := len(in.metrics) - 1; i >= 0; i-- {
+			put(in.metrics[i])
+		}
+	} else {
+		for _, m := range in.metrics {
+			if _, dup := p.m[nodeName(m.name)]; !dup {
+				put(m)
+			}
+		}
 	}
 	return p
 }
@@ -255,14 +279,18 @@ func buildNodes(in *input) []*corev1.Node {
 }
 
 // one full run on a fresh manager; ok=false when ParseShardingConfig rejects the YAML
-func realRun(in *input) (res map[string][]string, ok bool) {
-	cfg, err := sharding.ParseShardingConfig(buildYAML(in))
+// variant selects the insertion order of every map handed to the code; nodes
+// (optional) replaces the node slice by another listing of the same nodes.
+func realRun(in *input, variant int, nodes []*corev1.Node) (res map[string][]string, ok bool) {
+	cfg, err := sharding.ParseShardingConfig(buildYAML(in, variant))
 	if err != nil {
 		return nil, false
 	}
 	configs := sharding.VerifSchedulerConfigs(cfg)
-	mgr := sharding.NewShardingManager(configs, buildProvider(in))
-	nodes := buildNodes(in)
+	mgr := sharding.NewShardingManager(configs, buildProvider(in, variant))
+	if nodes == nil {
+		nodes = buildNodes(in)
+	}
 	before := make([]*corev1.Node, len(nodes))
 	copy(before, nodes)
 	as, err := mgr.CalculateShardAssignments(nodes, nil)
@@ -335,8 +363,47 @@ func key(in []int64) string {
 }
 
 type outcome struct {
-	got   []int64
+	got   []int64 // run with map insertion order 0 on the node slice as given
+	got2  []int64 // result of a fresh manager with map insertion order 1
+	listA []int64 // shard membership for two listings of the same nodes by a real node lister
+	listB []int64 // (nil when node names repeat or fewer than 2 nodes)
 	panic string
+}
+
+// the node list as the controller gets it: listNodesFromCache on a client-go
+// lister over an indexer holding exactly these nodes
+func listerNodes(nodes []*corev1.Node) []*corev1.Node {
+	idx := cache.NewIndexer(cache.MetaNamespaceKeyFunc, cache.Indexers{})
+	for _, n := range nodes {
+		if err := idx.Add(n); err != nil {
+			panic("harness: indexer.Add: " + err.Error())
+		}
+	}
+	out, err := sharding.VerifListNodes(corelisters.NewNodeLister(idx))
+	if err != nil || len(out) != len(nodes) {
+		panic("harness: listNodesFromCache lost nodes")
+	}
+	return out
+}
+
+func sameOrder(a, b []*corev1.Node) bool {
+	for i := range a {
+		if a[i] != b[i] {
+			return false
+		}
+	}
+	return true
+}
+
+// membership only: every shard sorted by node name
+func encMembers(res map[string][]string) []int64 {
+	cp := map[string][]string{}
+	for k, l := range res {
+		c := append([]string{}, l...)
+		sort.Slice(c, func(i, j int) bool { return num(c[i], "n") < num(c[j], "n") })
+		cp[k] = c
+	}
+	return encResult(cp)
 }
 
 func compute(in []int64) (o outcome) {
@@ -345,24 +412,58 @@ func compute(in []int64) (o outcome) {
 			o.panic = fmt.Sprint(r)
 		}
 	}()
-	res, ok := realRun(decode(in))
+	inp := decode(in)
+	res, ok := realRun(inp, 0, nil)
 	o.got = encAssign(res, ok)
+	if !ok {
+		return o
+	}
+	res2, ok2 := realRun(inp, 1, nil)
+	if !ok2 {
+		panic("second run: configuration rejected although the first run accepted it")
+	}
+	o.got2 = encResult(res2)
+	seen := map[int64]bool{}
+	for _, n := range inp.nodes {
+		if seen[n.name] {
+			return o
+		}
+		seen[n.name] = true
+	}
+	if len(inp.nodes) < 2 {
+		return o
+	}
+	nodes := buildNodes(inp)
+	a := listerNodes(nodes)
+	b := listerNodes(nodes)
+	for try := 0; try < 4 && sameOrder(a, b); try++ {
+		b = listerNodes(nodes)
+	}
+	ra, _ := realRun(inp, 0, a)
+	rb, _ := realRun(inp, 1, b)
+	o.listA, o.listB = encMembers(ra), encMembers(rb)
+	return o
+}
+
+func outcomeOf(in []int64) outcome {
+	if v, ok := memo.Load(key(in)); ok {
+		return v.(outcome)
+	}
+	o := compute(in)
+	memo.Store(key(in), o)
 	return o
 }
 
 func run(sel int, in []int64) []int64 {
-	if sel != 1 && sel != 2 {
+	if sel < 1 || sel > 3 {
 		panic(fmt.Sprintf("harness: unknown selector %d", sel))
 	}
-	k := key(in)
-	var o outcome
-	if v, ok := memo.Load(k); ok {
-		o = v.(outcome)
-	} else {
-		o = compute(in)
-	}
+	o := outcomeOf(in)
 	if o.panic != "" {
 		panic(o.panic)
+	}
+	if sel == 3 {
+		return o.got[:2] // near-tie input: only accept/reject is compared with the model
 	}
 	return o.got
 }
@@ -372,7 +473,14 @@ func run(sel int, in []int64) []int64 {
 const sigNodeLimit = ""
 const sigScoreOrder = ""
 
+// the node lister returns the nodes in Go map order; before /repo f5a4653 nothing sorted them
+// before CalculateShardAssignments and ties of the weighted score were broken by that order
+// (was sig "C17-node-lister-order-breaks-ties"; "" since the repair)
+const sigListerOrder = ""
+
 func laws(sel int, in, got []int64, law func(lsel int, lin []int64, sig string)) {
+	o := outcomeOf(in)
+	got = o.got
 	if len(got) < 3 || got[1] != 1 {
 		return // configuration rejected: no assignment to speak about
 	}
@@ -387,14 +495,19 @@ func laws(sel int, in, got []int64, law func(lsel int, lin []int64, sig string))
 	law(101, res, "")
 	law(102, cat(in, res), s1)
 	law(103, cat(in, res), "")
-	law(104, cat(in, res), s2)
-	// identical inputs, identical assignments: a second run on a fresh manager
-	res2, ok := realRun(inp)
-	if !ok {
-		panic("second run: configuration rejected although the first run accepted it")
+	if sel == 3 {
+		law(108, cat(in, res), s2) // order up to the float tolerance, same-class ties exact
+	} else {
+		law(104, cat(in, res), s2)
 	}
-	law(105, cat(res, encResult(res2)), "")
+	// identical inputs, identical assignments: a second run on a fresh manager whose
+	// maps (metrics provider, policy arguments) were filled in the opposite order
+	law(105, cat(res, o.got2), "")
 	law(106, cat(in, res), s1)
+	// the same cluster listed twice by the node lister: same shard membership
+	if o.listA != nil {
+		law(107, cat(o.listA, o.listB), sigListerOrder)
+	}
 }
 
 // ---------- generator ----------
@@ -405,12 +518,12 @@ func laws(sel int, in, got []int64, law func(lsel int, lin []int64, sig string))
 // below 1e-12: so a pair of float totals that differ by less than 1e-9 without
 // being equal is an exact tie that float rounding broke; such inputs are not emitted.
 func floatOrderExact(in *input) bool {
-	cfg, err := sharding.ParseShardingConfig(buildYAML(in))
+	cfg, err := sharding.ParseShardingConfig(buildYAML(in, 0))
 	if err != nil {
 		return true
 	}
 	nodes := buildNodes(in)
-	prov := buildProvider(in)
+	prov := buildProvider(in, 0)
 	pm := map[string]*policy.NodeMetrics{}
 	for k, v := range prov.m {
 		if v != nil {
@@ -723,8 +836,78 @@ func genInput(r *vh.Rng, kind string) *input {
 
 type genCase struct {
 	id, kind string
+	sel      int
 	in       *input
 	toks     []int64
+}
+
+// near-tie stream: allocation-rate (weight w1, range R hundredths) next to
+// warmup (weight w2) with w2*R divisible by w1: a cold node at utilisation
+// k+d and a warm node at k, d = w2*R/w1, have EXACTLY equal weighted scores,
+// while float64 computes w1*((k+d-lo)/R) and w1*((k-lo)/R)+w2 separately.
+func genNearTie(r *vh.Rng) *input {
+	type combo struct{ w1, w2, rng int64 }
+	var cs []combo
+	for _, R := range []int64{20, 25, 30, 40, 50, 60, 70, 75, 90} {
+		for w1 := int64(1); w1 <= 7; w1++ {
+			for w2 := int64(1); w2 <= 4; w2++ {
+				if (w2*R)%w1 == 0 && w2*R/w1 > 0 && w2*R/w1 <= R {
+					cs = append(cs, combo{w1, w2, R})
+				}
+			}
+		}
+	}
+	c := vh.Pick(r, cs)
+	d := c.w2 * c.rng / c.w1
+	lo := int64(r.Intn(int(100-c.rng) + 1))
+	hi := lo + c.rng
+	in := &input{}
+	ns := 1 + r.Intn(2)
+	for i := 0; i < ns; i++ {
+		sp := specT{name: int64(i + 1), cpumax: 1000}
+		sp.pols = []polT{
+			{name: 1, weight: c.w1, args: []argT{{1, lo * 10}, {2, hi * 10}}},
+			{name: 2, weight: c.w2},
+		}
+		if r.Chance(1, 3) {
+			sp.pols[0], sp.pols[1] = sp.pols[1], sp.pols[0]
+		}
+		if r.Chance(3, 4) {
+			sp.pols = append(sp.pols, polT{name: 3, args: []argT{{4, int64(1 + r.Intn(8))}}})
+		}
+		in.specs = append(in.specs, sp)
+	}
+	n := 4 + r.Intn(57)
+	name := int64(0)
+	add := func(k int64, warm bool) {
+		name++
+		in.nodes = append(in.nodes, nodeT{name: name, warm: warm})
+		in.metrics = append(in.metrics, metricT{name: name, present: true, util: k*10 + vh.Pick(r, []int64{-4, -2, 0, 0, 1, 3})})
+	}
+	for len(in.nodes) < n {
+		k := lo + int64(r.Intn(int(c.rng-d)+1))
+		switch r.Intn(4) {
+		case 0: // an exact cross tie
+			add(k+d, false)
+			add(k, true)
+		case 1: // the same class twice: bit-identical scores, order must be kept
+			w := r.Chance(1, 2)
+			add(k, w)
+			add(k, w)
+		default:
+			add(lo+int64(r.Intn(int(c.rng)+1)), r.Chance(1, 2))
+		}
+	}
+	for i := len(in.nodes) - 1; i > 0; i-- {
+		j := r.Intn(i + 1)
+		in.nodes[i], in.nodes[j] = in.nodes[j], in.nodes[i]
+	}
+	for i := range in.metrics {
+		if in.metrics[i].util < 0 {
+			in.metrics[i].util = 0
+		}
+	}
+	return in
 }
 
 func gen(rng *vh.Rng, n int, emit func(id string, sel int, in []int64, kind string, nontrivial bool, desc any)) {
@@ -732,7 +915,7 @@ func gen(rng *vh.Rng, n int, emit func(id string, sel int, in []int64, kind stri
 	if os.Getenv("C17_OLD_BATCHED") == "1" {
 		sel = 2 // development aid: compare a pre-fix worktree with the model of the pre-fix batched path
 	}
-	kinds := []string{"small", "threshold", "large", "large", "malformed"}
+	kinds := []string{"small", "threshold", "large", "large", "malformed", "near-tie"}
 	var cases []genCase
 	rejected := 0
 	// fixed cases first: the F6 witnesses
@@ -741,7 +924,7 @@ func gen(rng *vh.Rng, n int, emit func(id string, sel int, in []int64, kind stri
 		for i := 1; i <= sz; i++ {
 			in.nodes = append(in.nodes, nodeT{name: int64(i)})
 		}
-		cases = append(cases, genCase{id: fmt.Sprintf("f6-%d", sz), kind: "threshold", in: in})
+		cases = append(cases, genCase{id: fmt.Sprintf("f6-%d", sz), kind: "threshold", sel: sel, in: in})
 	}
 	{
 		// 60 nodes with increasing utilisation, one allocation-rate scheduler capped at 3
@@ -750,23 +933,42 @@ func gen(rng *vh.Rng, n int, emit func(id string, sel int, in []int64, kind stri
 			in.nodes = append(in.nodes, nodeT{name: int64(i)})
 			in.metrics = append(in.metrics, metricT{name: int64(i), present: true, util: int64(i) * 10})
 		}
-		cases = append(cases, genCase{id: "f6-order", kind: "threshold", in: in})
+		cases = append(cases, genCase{id: "f6-order", kind: "threshold", sel: sel, in: in})
+	}
+	{
+		// the node-lister finding in small: 3 nodes, cap 1, (a) no scorer, (b) equal utilisation
+		a := &input{specs: []specT{{name: 1, cpumax: 1000, pols: []polT{{name: 3, weight: 0, args: []argT{{4, 1}}}}}}}
+		b := &input{specs: []specT{{name: 1, cpumax: 1000, maxn: 1}}}
+		for i := int64(1); i <= 3; i++ {
+			a.nodes = append(a.nodes, nodeT{name: i})
+			b.nodes = append(b.nodes, nodeT{name: i})
+			b.metrics = append(b.metrics, metricT{name: i, present: true, util: 500})
+		}
+		cases = append(cases, genCase{id: "lister-3-noscorer", kind: "small", sel: sel, in: a},
+			genCase{id: "lister-3-equal-util", kind: "small", sel: sel, in: b})
 	}
 	for i := 0; i < n; i++ {
 		r := rng.Fork()
 		kind := kinds[i%len(kinds)]
+		if kind == "near-tie" {
+			cases = append(cases, genCase{id: fmt.Sprintf("g%d", i), kind: kind, sel: 3, in: genNearTie(r)})
+			continue
+		}
 		var in *input
 		for try := 0; ; try++ {
 			in = genInput(r, kind)
 			if floatOrderExact(in) {
 				break
 			}
+			// float64 rounding breaks an exact tie here: the exact model cannot be compared
+			// token by token, so the input goes to the tolerance-judged stream instead
 			rejected++
+			cases = append(cases, genCase{id: fmt.Sprintf("g%d-guard%d", i, try), kind: "near-tie/guard-rejected", sel: 3, in: in})
 			if try > 50 {
 				panic("generator: cannot find an input whose float order is exact")
 			}
 		}
-		cases = append(cases, genCase{id: fmt.Sprintf("g%d", i), kind: kind, in: in})
+		cases = append(cases, genCase{id: fmt.Sprintf("g%d", i), kind: kind, sel: sel, in: in})
 	}
 	// run the real code on a small worker pool (each batched run sleeps), then emit in order
 	for i := range cases {
@@ -814,10 +1016,10 @@ func gen(rng *vh.Rng, n int, emit func(id string, sel int, in []int64, kind stri
 			}
 			chains = append(chains, d)
 		}
-		emit(c.id, sel, c.toks, c.kind, assigned >= 2,
+		emit(c.id, c.sel, c.toks, c.kind, assigned >= 2,
 			map[string]any{"nodes": len(c.in.nodes), "schedulers": chains, "assigned": assigned})
 	}
-	fmt.Fprintf(os.Stderr, "generator: %d inputs redrawn by the float-order guard\n", rejected)
+	fmt.Fprintf(os.Stderr, "generator: %d inputs moved to the near-tie stream by the float-order guard (kind near-tie/guard-rejected)\n", rejected)
 }
 
 func main() {
